@@ -44,19 +44,21 @@ fn corpus_build() -> Vec<(&'static str, PL)> {
 }
 
 /// apply a node map to the model (labels taken from the fibres)
-fn apply_q(p: &PL, q: &[usize], k: usize) -> Option<PL> {
-    let mut w: Vec<Option<u32>> = vec![None; k];
+fn apply_q<O: Lbl>(p: &PLax<O, u64>, q: &[usize], k: usize) -> Option<PLax<O, u64>> {
+    let mut w: Vec<Option<O>> = vec![None; k];
     for (i, l) in p.w.iter().enumerate() {
         if q[i] >= k {
             return None;
         }
-        match w[q[i]] {
-            None => w[q[i]] = Some(*l),
-            Some(m) => {
-                if m != *l {
-                    return None;
-                }
-            }
+        let clash = match &w[q[i]] {
+            None => false,
+            Some(m) => m != l,
+        };
+        if clash {
+            return None;
+        }
+        if w[q[i]].is_none() {
+            w[q[i]] = Some(l.clone());
         }
     }
     if w.iter().any(|x| x.is_none()) {
@@ -294,7 +296,52 @@ impl C09 {
         }
     }
 
+    /// the same oracle over another node-label type (heap-allocated, zero-sized)
+    fn judge_other_labels<O: Lbl>(&self, ctx: &mut Ctx, class: &str, before: &PLax<O, u64>) {
+        let input = || json!({"diagram": show_lax(before)});
+        let (cls, k) = components(before.w.len(), &before.q);
+        let ok = { let mut lab: Vec<Option<&O>> = vec![None; k]; let mut ok = true; for (i, l) in before.w.iter().enumerate() { match lab[cls[i]] { None => lab[cls[i]] = Some(l), Some(m) => if m != l { ok = false } } } ok };
+        let mut f = to_lax(before);
+        let r = guard(|| f.quotient());
+        let r = match must_return(ctx, "OpenHypergraph::quotient", class, r, input) {
+            Some(r) => r,
+            None => return,
+        };
+        match (ok, r) {
+            (true, Ok(q)) => {
+                let qt = &q.table.0;
+                let part_ok = qt.len() == before.w.len() && q.target == k && same_partition(qt, &cls);
+                if ctx.check(part_ok, &format!("OpenHypergraph::quotient/fibres-are-components/value/{}", class), || json!({"input": input(), "observed_q": qt})) {
+                    let want = apply_q(before, qt, k);
+                    let after = from_lax(&f).ok();
+                    ctx.check(want.is_some() && want == after, &format!("OpenHypergraph::quotient/rewrites-every-reference/value/{}", class), || json!({"input": input(), "observed": after.as_ref().map(show_lax)}));
+                }
+            }
+            (false, Err(_)) => {
+                ctx.check(from_lax_raw(&f) == *before && lax_lens(&f) == plax_lens(before), &format!("OpenHypergraph::quotient/failed-leaves-diagram-unchanged/value/{}", class), || json!({"input": input()}));
+            }
+            (want_ok, got) => {
+                ctx.check(false, &format!("OpenHypergraph::quotient/succeeds-iff-uniform/value/{}", class), || json!({"input": input(), "expected_ok": want_ok, "observed_ok": got.is_ok()}));
+            }
+        }
+    }
+
     fn single(&self, ctx: &mut Ctx, class: &str, p: &PL) {
+        if !(p.w.len() > 300) {
+            match hash_of(p) % 8 {
+                0 => {
+                    ctx.class("node_labels_on_the_heap");
+                    let m = PLax { w: p.w.iter().map(|o| format!("sort-{}", o)).collect::<Vec<String>>(), e: p.e.clone(), s: p.s.clone(), t: p.t.clone(), q: p.q.clone() };
+                    self.judge_other_labels(ctx, "heap_labels", &m);
+                }
+                1 => {
+                    ctx.class("node_labels_of_size_zero");
+                    let m = PLax { w: vec![(); p.w.len()], e: p.e.clone(), s: p.s.clone(), t: p.t.clone(), q: p.q.clone() };
+                    self.judge_other_labels(ctx, "unit_labels", &m);
+                }
+                _ => {}
+            }
+        }
         let big = p.w.len() > 300;
         if p.q.iter().any(|&(a, b)| a != b) {
             ctx.nontrivial(p);
@@ -499,6 +546,8 @@ impl Monitor for C09 {
     fn floors(&self) -> Vec<(&'static str, u64)> {
         let mut v = vec![
             ("class:label_consistent", 200),
+            ("class:node_labels_on_the_heap", 200),
+            ("class:node_labels_of_size_zero", 200),
             ("events:history_absorbs_a_diagram_with_pending_pairs", 500),
             ("class:history_deletes_one_endpoint_of_a_pending_pair", 100),
             ("class:long_unification_chain_on_a_thread_stack", 6),
